@@ -1,6 +1,7 @@
 (* Corr_C12_proofs.v — the monitor used by Corr_C12_defs.judge accepts the model's own prediction for
-   every input that satisfies the guards of C12_signed_is_received, and attributes the two known
-   refutation witnesses to their findings. *)
+   every input that satisfies the guards of C12_signed_is_received (and whose service name is
+   lower-case, so that the documented rule for the HMAC key and the code's rule coincide), and
+   attributes the refutation witnesses to their findings. *)
 From V Require Import Base Base_proofs CorrBase Signer Signer_proofs Gen_Signer Corr_C12_defs.
 
 Lemma gen_lists_documented :
@@ -8,7 +9,71 @@ Lemma gen_lists_documented :
   gen_cov = documented_covered /\ gen_covh = documented_covered.
 Proof. repeat split; reflexivity. Qed.
 
-(* what an upstream observes of a model request: the symbolic signature headers become headers *)
+(* ---- the documented reading of `algorithm:secret` is the code's (generateHmacAuth) ---- *)
+Lemma split_cut spec :
+  split_on 58 spec = match cut_colon spec with None => [spec] | Some (a, rest) => a :: split_on 58 rest end.
+Proof.
+  induction spec as [|c s IH]; [reflexivity|].
+  simpl. destruct (N.eqb c 58); [reflexivity|].
+  rewrite IH. destruct (cut_colon s) as [[a rest]|]; reflexivity.
+Qed.
+
+Lemma split_has_colon s : existsb (N.eqb 58) s = true -> exists x y l, split_on 58 s = x :: y :: l.
+Proof.
+  induction s as [|c s IH]; cbn [existsb split_on]; [discriminate|].
+  rewrite (N.eqb_sym 58 c). destruct (N.eqb c 58) eqn:E.
+  - intros _. destruct (split_on 58 s) as [|y l] eqn:S; [exfalso; exact (split_on_nonnil 58 s S)|].
+    exists [], y, l. reflexivity.
+  - rewrite orb_false_l. intros H. destruct (IH H) as (x & y & l & ->). exists (c :: x), y, l. reflexivity.
+Qed.
+
+Lemma split_no_colon s : existsb (N.eqb 58) s = false -> split_on 58 s = [s].
+Proof.
+  intros H. apply split_on_none. intros Hin.
+  assert (X : existsb (N.eqb 58) s = true) by (apply existsb_exists; exists 58; split; [exact Hin | apply N.eqb_refl]).
+  congruence.
+Qed.
+
+Definition doc_parse (algs : list str) (spec : str) : hmac_config :=
+  match cut_colon spec with
+  | Some (a, secret) => if existsb (N.eqb 58) secret then HmacConfigError
+                        else if mem_str a algs then HmacOn secret else HmacConfigError
+  | None => HmacConfigError
+  end.
+
+Lemma doc_parse_is_generate algs spec : doc_parse algs spec = generate_hmac algs spec.
+Proof.
+  unfold doc_parse, generate_hmac. rewrite split_cut.
+  destruct (cut_colon spec) as [[a rest]|]; [|reflexivity].
+  destruct (existsb (N.eqb 58) rest) eqn:E.
+  - destruct (split_has_colon rest E) as (x & y & l & ->). reflexivity.
+  - rewrite (split_no_colon rest E). reflexivity.
+Qed.
+
+(* ---- and the documented variable is the one the code looks up, when the service name is lower-case ---- *)
+Theorem doc_hmac_agrees (w : world) :
+  lower_ascii (clean_ws (w_service w)) = clean_ws (w_service w) ->
+  doc_hmac w = hmac_of_config (w_algs w) (w_service w) (w_environ w).
+Proof.
+  intros H. unfold doc_hmac, hmac_of_config.
+  rewrite lower_ascii_app, H. change (lower_ascii signing_key_suffix) with signing_key_suffix.
+  generalize (clean_ws (w_service w) ++ signing_key_suffix). intros name.
+  induction (w_environ w) as [|[k v] t IH]; [reflexivity|].
+  simpl. destruct (str_eqb (lower_ascii k) name); [|exact IH].
+  exact (doc_parse_is_generate (w_algs w) v).
+Qed.
+
+(* the refuted general statement: documented rule = code's rule (known finding C12-K3) *)
+Definition ex_world_k3 : world :=
+  {| w_signer := Some 1; w_algs := [s_sha256]; w_service := s_mysvc;
+     w_environ := [(upper_ascii (clean_ws s_mysvc ++ signing_key_suffix), s_sha256 ++ 58 :: s_x)];
+     w_skip := false; w_inject := []; w_cookie_name := s_cookie_name; w_thost := s_backend |}.
+Lemma doc_hmac_case_witness :
+  doc_hmac ex_world_k3 = HmacOn s_x /\
+  hmac_of_config (w_algs ex_world_k3) (w_service ex_world_k3) (w_environ ex_world_k3) = HmacOff.
+Proof. split; vm_compute; reflexivity. Qed.
+
+(* ---- what an upstream observes of a model request: the symbolic signature headers become headers ---- *)
 Definition obs_headers (r : request) : headers :=
   let h := r_headers r in
   let h := match r_sso_sig r with Some _ => hset sso_signature [[83;73;71]] h | None => h end in
@@ -18,33 +83,41 @@ Definition to_obs (r : request) : obs_req :=
   {| o_method := r_method r; o_headers := obs_headers r; o_path := r_path r;
      o_rawquery := r_rawquery r; o_body := body_bytes r |}.
 
+(* the verdict the model predicts for an upstream that verifies with the documented secret *)
+Definition model_v_hmac (w : world) (p : request) : N :=
+  match doc_hmac w with HmacOn s => verify_hmac gen_covh s p | _ => verify_hmac gen_covh [] p end.
+Definition doc_key (w : world) : str := match doc_hmac w with HmacOn s => s | _ => [] end.
+
 (* the case the model itself predicts for an input *)
-Definition model_case (c : cfg) (ident : option identity) (r0 : request) (parsed : list (str * str)) : case :=
+Definition model_case (w : world) (ident : option identity) (r0 : request) (parsed : list (str * str)) : case :=
+  let c := cfg_of_world w in
   let p := received gen_cov gen_covh c parsed ident loopback r0 in
   let recv := to_obs p in
-  CFwd c ident r0 parsed (body_bytes r0) recv
+  CFwd w (doc_key w) ident r0 parsed (body_bytes r0) recv
        (canon_rsa gen_cov (of_obs recv)) (canon_hmac gen_covh (of_obs recv))
        (verify_rsa gen_cov (published_certs c) p) (kid_published (published_certs c) p)
-       (match c_hmac c with Some k => verify_hmac gen_covh k p | None => 0 end).
+       (model_v_hmac w p).
 
 Lemma sub_dc1 : forall k, In k dc -> In k all_protected.
 Proof. intros k H. unfold all_protected. apply in_or_app. left; exact H. Qed.
 Lemma sub_dc2 : forall k, In k sig_headers -> In k all_protected.
 Proof. intros k H. unfold all_protected. apply in_or_app. right. apply in_or_app. right; exact H. Qed.
 
-Theorem monitor_accepts_model c parsed ident r0 b :
-  bare_target c = true -> has_prefix (r_path r0) [47] = true -> r_fragment r0 = [] -> r_body r0 = Some b ->
+Theorem monitor_accepts_model w parsed ident r0 b :
+  let c := cfg_of_world w in
+  lower_ascii (clean_ws (w_service w)) = clean_ws (w_service w) ->
+  has_prefix (r_path r0) [47] = true -> r_fragment r0 = [] -> r_body r0 = Some b ->
   conn_safe all_protected (r_headers (at_sign_time c parsed ident r0)) = true ->
   cl_canonical (at_sign_time c parsed ident r0) = true ->
   let p := received gen_cov gen_covh c parsed ident loopback r0 in
   let recv := to_obs p in
   holds_rsa c recv (canon_rsa gen_cov (of_obs recv)) (verify_rsa gen_cov (published_certs c) p)
             (kid_published (published_certs c) p) = true /\
-  holds_hmac c recv (canon_hmac gen_covh (of_obs recv))
-             (match c_hmac c with Some k => verify_hmac gen_covh k p | None => 0 end) = true /\
+  holds_hmac w recv (canon_hmac gen_covh (of_obs recv)) (model_v_hmac w p) = true /\
   holds_body (body_bytes r0) recv = true.
 Proof.
-  intros Hb Hp Hf Hbody Hconn Hcl p recv.
+  intros c Hsvc Hp Hf Hbody Hconn Hcl p recv.
+  assert (Hb : bare_target c = true) by reflexivity.
   destruct gen_lists_documented as (_&_&E1&E2).
   destruct documented_facts as (Hok&_&_&_).
   split; [|split].
@@ -54,22 +127,48 @@ Proof.
                 c parsed ident loopback r0 b Hb Hp Hf Hbody Hconn Hcl sk Hk Hs) as (V1&V2&V3).
     unfold p. rewrite E1, E2. fold dc. rewrite V1. unfold kid_published. rewrite V2, V3.
     simpl. apply str_eqb_refl.
-  - unfold holds_hmac. destruct (c_hmac c) as [k|] eqn:Hs; [|reflexivity].
-    unfold signing_on. destruct (c_skip c) eqn:Hk; [reflexivity|]. simpl.
+  - unfold holds_hmac, model_v_hmac. pose proof (doc_hmac_agrees w Hsvc) as Hd.
+    destruct (doc_hmac w) as [|k|] eqn:Hdoc; try reflexivity.
+    destruct (w_skip w) eqn:Hk; [reflexivity|]. simpl.
+    assert (Hh : c_hmac c = Some k) by (unfold c, cfg_of_world; cbn [c_hmac]; rewrite <- Hd; reflexivity).
     pose proof (hmac_signature_verifies dc dc all_protected Hok sub_dc1 sub_dc2
-                c parsed ident loopback r0 b Hb Hp Hf Hbody Hconn Hcl k Hk Hs) as V.
+                c parsed ident loopback r0 b Hb Hp Hf Hbody Hconn Hcl k Hk Hh) as V.
     unfold p. rewrite E1, E2. fold dc. rewrite V. simpl. apply str_eqb_refl.
   - unfold holds_body, recv, to_obs, p. cbn [o_body]. unfold body_bytes at 2.
     rewrite body_intact. apply str_eqb_refl.
 Qed.
 
-(* the guards are satisfiable, and the judge returns 0 on the model's prediction there;
-   on the two refutation witnesses it attributes the falsified clause to K1 resp. K2 *)
-Example judge_model_post : judge (model_case ex_cfg ex_ident ex_post ex_parsed) = 0.
+(* the guards are satisfiable, and the judge returns 0 on the model's prediction there (also with
+   inject_request_headers naming covered headers); on the refutation witnesses it attributes the
+   falsified clause to K1, K2, K3 *)
+Definition s_svc : str := [115;118;99]. (* "svc" *)
+Definition ex_world : world :=
+  {| w_signer := Some 1; w_algs := [s_sha256]; w_service := s_svc;
+     w_environ := [(upper_ascii (s_svc ++ signing_key_suffix), s_sha256 ++ 58 :: [107;101;121])];
+     w_skip := false; w_inject := []; w_cookie_name := s_cookie_name; w_thost := s_backend |}.
+Definition ex_world_inject : world :=
+  {| w_signer := Some 1; w_algs := [s_sha256]; w_service := s_svc;
+     w_environ := [(upper_ascii (s_svc ++ signing_key_suffix), s_sha256 ++ 58 :: [75;101;89])];
+     w_skip := false;
+     w_inject := [(lower_ascii authorization, s_bearer); (x_forwarded_user, s_x); (cookie_h, [105;61;49])];
+     w_cookie_name := s_cookie_name; w_thost := s_backend |}.
+
+Example ex_world_cfg : cfg_of_world ex_world = ex_cfg.
 Proof. vm_compute. reflexivity. Qed.
-Example judge_model_hop : judge (model_case ex_cfg ex_ident ex_hop []) = 101.
+Example judge_model_post : judge (model_case ex_world ex_ident ex_post ex_parsed) = 0.
 Proof. vm_compute. reflexivity. Qed.
-Example judge_model_hop_sig : judge (model_case ex_cfg ex_ident ex_hop_sig []) = 101.
+Example judge_model_inject :
+  judge (model_case ex_world_inject ex_ident ex_post [([105], [105;61;49])]) = 0 /\
+  hvals authorization (r_headers (at_sign_time (cfg_of_world ex_world_inject) [([105], [105;61;49])] ex_ident ex_post)) = [s_bearer] /\
+  hvals x_forwarded_user (r_headers (at_sign_time (cfg_of_world ex_world_inject) [([105], [105;61;49])] ex_ident ex_post)) = [s_bob].
+Proof. vm_compute. repeat split; reflexivity. Qed.
+Example judge_model_hop : judge (model_case ex_world ex_ident ex_hop []) = 101.
 Proof. vm_compute. reflexivity. Qed.
-Example judge_model_cl0 : judge (model_case ex_cfg ex_ident ex_cl0 []) = 102.
+Example judge_model_hop_sig : judge (model_case ex_world ex_ident ex_hop_sig []) = 101.
 Proof. vm_compute. reflexivity. Qed.
+Example judge_model_cl0 : judge (model_case ex_world ex_ident ex_cl0 []) = 102.
+Proof. vm_compute. reflexivity. Qed.
+Example judge_model_k3 : judge (model_case ex_world_k3 ex_ident ex_post ex_parsed) = 103.
+Proof. vm_compute. reflexivity. Qed.
+Example judge_cfg : judge (CCfg ex_world false) = 0 /\ judge (CCfg ex_world_k3 false) = 0.
+Proof. vm_compute. split; reflexivity. Qed.
